@@ -106,13 +106,17 @@ CB_RUN = [
 ]
 
 
-def run():
-    """-> list of failure descriptions (empty when the trusted base behaves as specified)."""
+def run(include_library=True):
+    """-> list of failure descriptions (empty when the trusted base behaves as specified).
+    include_library=False leaves out the snippets that execute procedures of the tool's own ecb.b09: they say something
+    about the code under observation, not about the oracle, and must not turn a defect there into 'inconclusive'."""
     fails = []
     from . import harness
 
     lib = harness.library()
     for name, text, want in B09_CASES:
+        if not include_library and name.startswith("library "):
+            continue
         try:
             procs = parse_program(text)
             m = b09i.Machine(procs, lib, budget=5000)
